@@ -103,3 +103,47 @@ From FG Require PvBuffers.
 Theorem C05_model_constants_dumped :
   Z.of_nat PvBuffers.max_depth = c_max_depth.
 Proof. exact ConstTie.pvbuffers_constants_dumped. Qed.
+
+(* the named hypothesis [iid_ok] discharged for the engine's own setting: gen/Tables_gen.v holds
+   config.Settings.Search.IIDReduction / IIDDepth as the running engine has them after package initialisation
+   (regenerated on every run); site iid_reduces_depth: the IID call of [search] re-enters the same node at
+   depth - IIDReduction (clamped at 0, [depth - ip_red ip] on nat) *)
+Theorem C05_iid_reduction_positive : (1 <= c_iid_reduction)%Z.
+Proof. apply Z.leb_le. reflexivity. Qed.
+
+(* an oracle whose IID plans all carry the engine's reduction *)
+Definition iid_engine (o : oracle) : Prop :=
+  forall p t ip, v_iid (o_s o p t) = Some ip -> ip_red ip = Z.to_nat c_iid_reduction.
+
+Theorem C05_iid_engine_ok : forall o : oracle, iid_engine o -> iid_ok o.
+Proof.
+  intros o H p t ip E. rewrite (H p t ip E).
+  apply Nat.leb_le. vm_compute. reflexivity.
+Qed.
+
+Theorem C05_fuel_enough_engine_iid :
+  forall (fuel : nat) (o : oracle) (usett : bool) (book : option move) (t : gt) (maxdepth : nat),
+         iid_engine o -> smeasure maxdepth 1 <= fuel -> oof (res_final (run fuel o usett book t maxdepth)) = false.
+Proof. intros fuel o usett book t maxdepth H. apply fuel_enough, C05_iid_engine_ok, H. Qed.
+
+Theorem C05_terminates_engine_iid :
+  forall (fuel : nat) (o : oracle) (usett : bool) (t : gt) (maxdepth : nat),
+         hash_ok o ->
+         iid_engine o ->
+         first_cmp o ->
+         root_moves o t 1 <> [] ->
+         1 <= maxdepth ->
+         smeasure maxdepth 1 <= fuel ->
+         let r := run fuel o usett None t maxdepth in
+         oof (res_final r) = false /\ err (res_final r) = false /\ res_best r <> None.
+Proof. intros fuel o usett t maxdepth Hh Hi. apply terminates; [exact Hh | apply C05_iid_engine_ok, Hi]. Qed.
+Print Assumptions C05_iid_engine_ok.
+Print Assumptions C05_fuel_enough_engine_iid.
+Print Assumptions C05_terminates_engine_iid.
+
+(* the arithmetic behind the named hypothesis [first_cmp] on the engine's own constants: rootSearch starts with
+   bestNodeValue = ValueNA (site root_first_move_beats_na); the value of the first root move is ValueDraw, or
+   -search(...) where search returns ValueNA when stopped or a value within [-ValueInf, ValueInf] *)
+Theorem C05_value_na_below_every_value :
+  (c_value_na < - c_value_inf)%Z /\ (c_value_na < c_value_draw)%Z /\ (- c_value_na > c_value_na)%Z.
+Proof. exact ConstTie.value_na_below_every_value. Qed.
